@@ -73,5 +73,10 @@ Definition need_resample (n0 : nat) (idx0 thr stp one : Z) (k : nat) : nat :=
   | S k' => n0 + Z.to_nat (Z.max 0 (- ((thr - idx0 - Z.of_nat k' * stp) / one)))%Z
   end.
 
+(* resample with a step stream: the input as for a constant step, the step stream one item per
+   output already delivered (k-1 items for k outputs); c selects the counted sources *)
+Definition need_resample_tv (c : nat -> bool) (n0 : nat) (idx0 thr stp one : Z) (k : nat) : nat :=
+  (if c 0 then need_resample n0 idx0 thr stp one k else 0) + (if c 1 then k - 1 else 0).
+
 (* composition of needs along a chain: the first stage reads the sources *)
 Definition need_comp (n1 n2 : nat -> nat) (k : nat) : nat := n1 (n2 k).
